@@ -1,5 +1,6 @@
 import CstModel.Props.C19
 import CstModel.Props.C03
+import CstModel.Props.Gen
 open Cst.C19
 #print axioms boundary_window
 #print axioms takeBytes_of_boundary
@@ -12,3 +13,6 @@ open Cst.C19
 #print axioms display_text
 #print axioms Cst.C03.forwarders_elem_ok
 #print axioms Cst.C03.forwarders_resolved_ok
+#print axioms Cst.Gen.tok_write_debug_raw
+#print axioms Cst.Gen.tok_write_debug
+#print axioms Cst.Gen.not_display
